@@ -620,4 +620,99 @@ theorem single_probe_key (H : Hash) (t : Table) (now : Int) :
     have hc2 : (normalizeQ k2).qclass = k2.qclass := rfl
     rw [e1, e2, hc1, hc2, hc]
 
+
+/-! ## non-vacuity: concrete, non-trivial states satisfying the hypotheses -/
+
+section Examples
+
+/-- every key collides with every other key. -/
+def H0 : Hash := ⟨fun _ => 0, fun _ => 0⟩
+/-- a hash that separates names of different length only. -/
+def H1 : Hash := ⟨fun k => UInt64.ofNat k.name.length, fun k => UInt64.ofNat (k.zone.length + 1000)⟩
+
+def cfg0 : Cfg := ⟨5 * second, 300 * second⟩
+
+/-- `example.com.` -/
+def exampleCom : Str := [101, 120, 97, 109, 112, 108, 101, 46, 99, 111, 109, 46]
+/-- `www.example.com.` -/
+def wwwExampleCom : Str := [119, 119, 119, 46] ++ exampleCom
+/-- `notexample.com.` -/
+def notExampleCom : Str := [110, 111, 116] ++ exampleCom
+/-- `WWW.Example.COM` (mixed case, unrooted) -/
+def wwwMixed : Str := [87, 87, 87, 46, 69, 120, 97, 109, 112, 108, 101, 46, 67, 79, 77]
+/-- `x\.example.com.` (one label `x.example`, then `com`) -/
+def escDot : Str := [120, 92, 46] ++ exampleCom
+
+def qA (n : Str) : QKey := ⟨n, 1, 1, false, none⟩
+
+-- backoff_envelope: a valid configuration and its first backoffs (5 s, 5 s, 10 s, … capped at 300 s)
+example : cfg0.Valid := by unfold Cfg.Valid; decide
+example : (List.range 9).map (backoff cfg0) =
+    [5000000000, 5000000000, 10000000000, 20000000000, 40000000000, 80000000000, 160000000000,
+     300000000000, 300000000000] := by decide
+-- newCfg_valid: accepted, and rejected above the ceiling
+example : newCfg 64 (2 * second) (3 * second) = .ok ⟨2 * second, 3 * second⟩ := by rfl
+example : newCfg 64 (1 * second) (301 * second) = .error .ceiling := by rfl
+
+-- hit_is_exact_or_ancestor: a question hit through another spelling of the same question …
+example : (lookup H0 (recordQuestion H0 cfg0 [] 0 (qA wwwMixed) 3 0).1 1 (qA wwwExampleCom)).isSome = true := by decide
+-- … while, under a total collision, another type / CD / audience / name is refused
+example : lookup H0 (recordQuestion H0 cfg0 [] 0 (qA wwwMixed) 3 0).1 1 ⟨wwwExampleCom, 28, 1, false, none⟩ = none := by decide
+example : lookup H0 (recordQuestion H0 cfg0 [] 0 (qA wwwMixed) 3 0).1 1 ⟨wwwExampleCom, 1, 1, true, none⟩ = none := by decide
+example : lookup H0 (recordQuestion H0 cfg0 [] 0 (qA wwwMixed) 3 0).1 1
+    ⟨wwwExampleCom, 1, 1, false, some ⟨false, 24, 167772160⟩⟩ = none := by decide
+-- zone_hit_is_labelwise_ancestor: a zone failure covers the name below it, not the textual look-alikes
+example : (lookup H1 (recordZone H1 cfg0 [] 0 ⟨exampleCom, 1⟩ 2 0).1 1 (qA wwwExampleCom)).isSome = true := by decide
+example : lookup H1 (recordZone H1 cfg0 [] 0 ⟨exampleCom, 1⟩ 2 0).1 1 (qA notExampleCom) = none := by decide
+example : lookup H1 (recordZone H1 cfg0 [] 0 ⟨exampleCom, 1⟩ 2 0).1 1 (qA escDot) = none := by decide
+example : isFqdn (canonicalName wwwMixed) = true := by decide
+example : labels wwwExampleCom = [[119, 119, 119], [101, 120, 97, 109, 112, 108, 101], [99, 111, 109]] := by decide
+example : labels escDot = [[120, 92, 46, 101, 120, 97, 109, 112, 108, 101], [99, 111, 109]] := by decide
+
+-- wire_hit_is_exact_or_ancestor: 3www7example3com0 against the zone state
+example : (lookupWire H1 (recordZone H1 cfg0 [] 0 ⟨exampleCom, 1⟩ 2 0).1 1
+    ([3, 87, 87, 87, 7, 69, 88, 65, 77, 80, 76, 69, 3, 99, 111, 109, 0]) 1 1 false).isSome = true := by decide
+
+-- active_only_before_retryAfter: a history with renewals, a reset and an eviction; the hit is inside the
+-- envelope, and one nanosecond later (at retryAfter) nothing is served
+def hist : List Op :=
+  [.recZ ⟨exampleCom, 1⟩ 2 0 0, .recQ (qA wwwMixed) 1 7 1, .resetQ (qA notExampleCom), .evict [17],
+   .recZ ⟨exampleCom, 1⟩ 2 0 (6 * second)]
+example : (lookup H1 (hist.foldl (applyOp H1 cfg0) []) (16 * second - 1) (qA notExampleCom)) = none := by decide
+example : (lookup H1 (hist.foldl (applyOp H1 cfg0) []) (16 * second - 1) (qA escDot)) = none := by decide
+example : (lookup H1 (hist.foldl (applyOp H1 cfg0) []) (16 * second - 1) ⟨wwwExampleCom, 28, 1, true, none⟩).isSome = true := by decide
+example : (lookup H1 (hist.foldl (applyOp H1 cfg0) []) (16 * second) ⟨wwwExampleCom, 28, 1, true, none⟩) = none := by decide
+
+-- record_idempotent_in_generation / record_backoff_steps: first, idempotent, renewal (streak 2 = 10 s), quiet reset
+example : (recordQuestion H0 cfg0 [] 0 (qA wwwMixed) 3 0).2.retryAfter = 5 * second := by decide
+example : (recordQuestion H0 cfg0 (recordQuestion H0 cfg0 [] 0 (qA wwwMixed) 3 0).1 (5 * second) (qA wwwExampleCom) 4 9).2.retryAfter
+    = 15 * second := by decide
+example : (recordQuestion H0 cfg0 (recordQuestion H0 cfg0 [] 0 (qA wwwMixed) 3 0).1 (305 * second) (qA wwwExampleCom) 4 9).2.streak
+    = 1 := by decide
+
+-- success_resets: the zone state that covered the name is gone after the success
+example : (lookup H1 (resetMatching H1 (recordZone H1 cfg0 [] 0 ⟨exampleCom, 1⟩ 2 0).1 (qA wwwMixed)).1 1 (qA wwwExampleCom)) = none := by decide
+
+-- local_causes_never_shared / zone: hypotheses are satisfiable, and the complement does record
+example : cacheableResolutionFailure ⟨false, false, false, .other⟩ = true := by decide
+example : cacheableResolutionFailure ⟨false, false, false, .probeLimit⟩ = false := by decide
+example : resolveRecordsZone ⟨false, false, false, .none⟩ false false
+    (lookupFold false [.err .other, .rcode 2, .bogusReferral, .err .deadline] [] 0 []) = true := by decide
+example : resolveRecordsZone ⟨false, false, false, .none⟩ false false
+    (lookupFold false [.err .other, .rcode 2, .rcode 3] [] 0 []) = false := by decide
+example : resolveRecordsZone ⟨false, false, false, .none⟩ false false
+    (lookupFold false [.err .other, .err .attemptLimit, .rcode 2] [] 0 []) = false := by decide
+
+-- response_shape: the client's cookie and ECS options are not echoed
+example : (response (some ⟨true, true, some ⟨1232, true, [10, 8]⟩⟩)).opt = some ⟨1232, true, [(15, 13)]⟩ := by decide
+example : (response (some ⟨true, false, none⟩)).opt = none := by decide
+
+-- single_probe_key: after expiry two different names / types / CD below the failed zone share its key
+example : retryKey H1 (recordZone H1 cfg0 [] 0 ⟨exampleCom, 1⟩ 2 0).1 (5 * second) (qA wwwExampleCom)
+    = retryKey H1 (recordZone H1 cfg0 [] 0 ⟨exampleCom, 1⟩ 2 0).1 (5 * second) ⟨[97, 46] ++ wwwExampleCom, 28, 1, true, none⟩ := by decide
+example : (retryKey H1 (recordZone H1 cfg0 [] 0 ⟨exampleCom, 1⟩ 2 0).1 (5 * second) (qA wwwExampleCom)).isSome = true := by decide
+example : retryKey H1 (recordZone H1 cfg0 [] 0 ⟨exampleCom, 1⟩ 2 0).1 (5 * second - 1) (qA wwwExampleCom) = none := by decide
+
+end Examples
+
 end SdnsVerif.Props.C13
